@@ -122,6 +122,29 @@ def run(ctx):
                            "broken": "certificate no_stuck_ok (hypothesis of c10_ok_consumes_all)"}, found_input=path is not None)
         elif w != "ok":
             ctx.violation("wf:%s:%s" % (r["name"], " ".join(r["flags"])), "certificate check failed: " + w[:60], {"program": r["src"], "flags": r["flags"]}, found_input=False)
+    # FAIL position: certificate fail_entry_ok (hypothesis of c10_fail_at_first_offending_byte) for every compiled machine,
+    # the EOF shapes of C17 included (standalone `end` statements build their own error transitions)
+    fp_machines = [(r["name"], r["flags"], r["src"], r["machine"]) for r in good]
+    for i in range(40 if quick else 400):
+        ast_e, src_e = gen.gen_eof_shape(random.Random(rng.getrandbits(48)))
+        for lvl in ("-O0", "-O2"):
+            re_ = nm.compile_source(src_e, [lvl, "-feof-support"], interner=export.Interner())
+            if re_["verdict"] == "ok":
+                fp_machines.append(("eof%d" % i, [lvl, "-feof-support"], src_e, re_["machines"]["post_optimize"]))
+    fcert = mach.run_machk([mach.task_failpos(m) for (_, _, _, m) in fp_machines])
+    nfp = collections.Counter()
+    for (name_, flags_, src_, m_), w in zip(fp_machines, fcert):
+        nfp[w.split()[0]] += 1
+        if w.startswith("failentry"):
+            q, b = w.split()[1:3]
+            path = mach.reach_path(m_, int(q)) if q.isdigit() else None
+            ctx.violation("fail-position:%s:%s:q%s:b%s" % (name_, " ".join(flags_), q, b),
+                          "in machine state %s byte %s is consumed on the way into the fail state (or FAIL is returned behind it): FAIL is then reported one byte past the offending byte, or only by the next call" % (q, b),
+                          {"program": src_, "flags": flags_, "state": q, "byte": b, "input": (path or []) + [int(b)] if b.isdigit() else None,
+                           "broken": "certificate fail_entry_ok (hypothesis of c10_fail_at_first_offending_byte)"}, found_input=path is not None)
+        elif w != "ok":
+            ctx.violation("fail-position-check:%s:%s" % (name_, " ".join(flags_)), "certificate check failed: " + w[:60], {"program": src_, "flags": flags_}, found_input=False)
+    ctx.coverage["fail_position_certificates"] = dict(nfp)
     # known finding (found by the C01 validator): one witness, re-checked on every run
     WSRC = """out int{signed, size 1} n0; out unterminated str[2] s0; out str[3] s1 = "a\\x00"; finishcode F0, F1; yieldcode Y0, Y1;
 parser {
